@@ -1,7 +1,7 @@
 SPEC = dict(
     props_file="C15",
     legs=[dict(family="tdigest", focus="c15", oracles=["c15_ok"], tie_oracles=["tie_ok"], profiles=["debug", "release"],
-               mask=[0, 1, 7, 8, 9, 10, 14, 15, 17], n_quick=80, n_thorough=220)],
+               mask=[0, 1, 7, 8, 9, 10, 14, 15, 17], n_quick=80, n_thorough=160)],
     level_text="STRUCTURAL HALF ONLY. Theorems (Props/C15.v): do_merge is modelled as the relation merge_rel that every "
                "decision sequence of the pass satisfies (output = partition of the stably sorted input into contiguous "
                "non-empty groups, first and last group singletons, each output centroid = summed weight and exact weighted "
